@@ -427,12 +427,12 @@ func init() {
 func c02Handover(w *W) {
 	kind := []string{"pair", "xpair", "pair1", "xpair1"}[w.Choose(simrt.SShape, 4)]
 	tran := []string{"sim", "simipc", "inproc"}[w.Choose(simrt.SShape, 3)]
-	wq := []int{1, 2, 8, 128}[w.Choose(simrt.SShape, 4)]
+	wq := []int{8, 2, 128, 1}[w.Choose(simrt.SShape, 4)]
 	nmsg := 6 + w.Choose(simrt.SShape, 20)
 	w.SetShape("kind", kind)
 	w.SetShape("tran", tran)
 	w.SetShape("wq", wq)
-	w.UseNet(NetCfg{Segment: w.Choose(simrt.SShape, 2) == 0, BufCap: []int{64, 300, 0}[w.Choose(simrt.SShape, 3)]})
+	w.UseNet(NetCfg{Segment: w.Choose(simrt.SShape, 2) == 0, BufCap: []int{64, 300, 64, 0}[w.Choose(simrt.SShape, 4)]})
 	qkey := fmt.Sprintf("%s:wq=%d:handover", kind, wq)
 	a, b, c := w.Sock(kind), w.Sock(kind), w.Sock(kind)
 	defer a.Close()
@@ -457,6 +457,7 @@ func c02Handover(w *W) {
 	// B reads slowly (so A's queue and socket buffer towards it fill up)
 	rb := &c2Recv{name: "B", s: b}
 	mustSet(w, b, mangos.OptionRecvDeadline, 2*time.Millisecond)
+	mustSet(w, b, mangos.OptionReadQLen, 1) // (or B's own receive queue would swallow everything at once)
 	stopB := false
 	w.Do("slow receiver B", func() (interface{}, error) {
 		for !stopB {
@@ -502,6 +503,7 @@ func c02Handover(w *W) {
 	}
 	w.Sleep(time.Second)
 	w.Settle()
+	w.Op("A sent %d, B received %d, C received %d", nmsg, len(rb.got), len(rc.got))
 	if !c2CheckOrder(w, rb, qkey) || !c2CheckOrder(w, rc, qkey) {
 		return
 	}
